@@ -1,7 +1,7 @@
 (** C05 - Pointer events always carry the true position and button state. Statements only. *)
 From Coq Require Import ZArith List Bool Lia.
 From VD Require Import Base.Bytes Model.ClientMsgs Model.Pointer Model.ClientOps Spec.C2S.
-From VD Require Import Proofs.C2SP Proofs.PointerP Proofs.ClientOpsP Proofs.PointerSpecP.
+From VD Require Import Proofs.C2SP Proofs.PointerP Proofs.ClientOpsP Proofs.PointerSpecP Gen.Exprs Proofs.ExprTie.
 Import ListNotations.
 Open Scope Z_scope.
 
@@ -71,3 +71,14 @@ Example C05_nonvacuous :
   Rel (cs_ptr (mk_cstate ptr0 8 8 false false)) ss0 /\
   Forall pop_ok [PMove 10 20; PDown 1; PDrag 7 25 2; PClick 3; PUp 1].
 Proof. split; [apply Rel0|repeat constructor; cbn; lia]. Qed.
+
+(** The drag path of the model is the source's own: start, stop and step of the range, the intermediate position as a
+    function of the loop variable and the final position are regenerated from client.py on every run (gen/exprs.py,
+    [Gen/Exprs.v]); Python's // is Coq's floor division. *)
+Theorem C05_drag_path_is_source : forall s x y step,
+  mouseDrag s x y step =
+  if step =? 0 then (s, None)
+  else moves s (map (gen_drag_move (px s) (py s) x y step) (py_range (gen_drag_range (px s) (py s) x y step))
+                ++ [gen_drag_last (px s) (py s) x y step]).
+Proof. exact mouseDrag_is_source. Qed.
+Print Assumptions C05_drag_path_is_source.
